@@ -89,6 +89,9 @@ struct SlotModel {
   /// effective sweep calls (with k > 0) since the slot was created
   sweeps_since_alloc: u32,
   seen_dead: bool,
+  /// a mark was applied and no sweep window has covered this slot since (needs the slot id and
+  /// the cursor, both read through the verification hook; false when the hook is not compiled in)
+  marked_since_pass: bool,
 }
 
 impl SlotModel {
@@ -102,6 +105,8 @@ impl SlotModel {
       Some("never exposed to an effective sweep")
     } else if self.marked && self.sweeps_since_mark <= 1 {
       Some("marked, with at most one effective sweep call since")
+    } else if self.marked_since_pass {
+      Some("marked since the sweeper last passed over its slot")
     } else {
       None
     }
@@ -362,7 +367,32 @@ pub fn run_ops(ops: &[Op], check_every: usize) -> (Vec<Finding>, SeqStats) {
           SweepK::Len(d) => (len_now as i64 + d).max(0) as usize,
         };
         let effective = unmarked_model.is_empty();
+        // the window this call passes over: [cursor, cursor + k) cut at the end of the table
+        #[cfg(samlang_verif)]
+        let window = m.heap.verif_check_invariants().ok().map(|st| (st.sweep_index, st.sweep_index.saturating_add(k).min(st.slots)));
         m.heap.sweep(k);
+        #[cfg(samlang_verif)]
+        if let (true, Some((from, to))) = (effective, window) {
+          // every modelled slot inside the window was passed: a mark protects it this once
+          let passed: Vec<PStr> = m.slots.keys().copied().filter(|p| p.verif_heap_id().map(|id| (id as usize) >= from && (id as usize) < to).unwrap_or(false)).collect();
+          for p in passed {
+            let protected = m.slots.get(&p).map(|sm| sm.marked_since_pass && !sm.seen_dead && !sm.permanent).unwrap_or(false);
+            if protected && try_read(&m.heap, p).is_err() {
+              let what = format!("slot {:?} was marked since the sweeper last passed over it, sweep({k}) over [{from}, {to}) reclaimed it", p.verif_heap_id());
+              m.fail(i, "live-string-reclaimed:marked-since-last-pass", what);
+            }
+            if let Some(sm) = m.slots.get_mut(&p) {
+              sm.marked_since_pass = false;
+            }
+          }
+          // the cursor itself
+          if let Ok(st) = m.heap.verif_check_invariants() {
+            let want = if from.saturating_add(k) >= st.slots { 0 } else { from + k };
+            if st.sweep_index != want {
+              m.fail(i, "sweep-cursor", format!("after sweep({k}) from cursor {from} over {} slots the cursor is {} (expected {want})", st.slots, st.sweep_index));
+            }
+          }
+        }
         if effective {
           m.st.effective_sweeps += 1;
           if k >= len_now {
@@ -464,7 +494,7 @@ impl Monitor {
           if self.dead_strings.remove(s) {
             self.st.realloc_after_reclaim += 1;
           }
-          self.slots.insert(p, SlotModel { permanent: permanent || known_permanent, marked: false, sweeps_since_mark: 0, sweeps_since_alloc: 0, seen_dead: false });
+          self.slots.insert(p, SlotModel { permanent: permanent || known_permanent, marked: false, sweeps_since_mark: 0, sweeps_since_alloc: 0, seen_dead: false, marked_since_pass: false });
         }
       }
       if permanent && self.permanent_strings.insert(s.to_string()) {
@@ -498,6 +528,7 @@ impl Monitor {
       if alive && !sm.seen_dead {
         sm.marked = true;
         sm.sweeps_since_mark = 0;
+        sm.marked_since_pass = cfg!(samlang_verif);
       }
     }
   }
